@@ -43,7 +43,8 @@ RULE = (
     'flight on two hosts at the same time, or (b) a delete callback for '
     'container k ran on a host that had already registered a newer container '
     'of the same instance, or (c) a session expired between two ZooKeeper '
-    'calls of one callback. kind=unreg (5%): non-trivial = a node in the '
+    'calls of one callback (counted besides: stale-watch = a DELETED event '
+    'delivered after the node was registered again, fault-interleaved). kind=unreg (5%): non-trivial = a node in the '
     'scope of the call names another host. kind=unsched (5%): non-trivial '
     '= stale event (instance scheduled, placed on another host, not here). '
     'kind=register (10%): real EndpointPresence.register_* of a new '
@@ -403,6 +404,16 @@ def fixed_cases():
             'target': 0, 'fault': [1, 0],
             'apps': [{'eps': [0], 'ident': ['g', 0], 'placed': True,
                       'running': 0, 'ep_owner': [0], 'ident_owner': 0}]}),
+        # stale watch: B waits for A's node; A cleans the old container up
+        # and registers the next one of the same instance BEFORE B hears of
+        # the deletion; B must find the node owned by A and wait again
+        ('stale-watch-after-reregistration', {
+            'kind': 'sched', 'hosts': 2, 'ops': [
+                ['new', 0, 0, [0], ['g', 0]], ['fin', 0],
+                ['new', 0, 1, [0], ['g', 0]], ['fin', 0],
+                ['del', 0, 0], ['new', 0, 0, [0], ['g', 0]],
+                ['fin', 0], ['fin', 0], ['wat', 0], ['wat', 0], ['wat', 0],
+                ['fin', 0], ['fin', 0]]}),
         # witnesses of the findings of round 1 (see notes/C17-notes.md):
         # service restart replays the request dir newest-first, the old
         # request takes /running over, its clean-up unregisters the new one
